@@ -79,7 +79,7 @@ def cexOptions : Options := { (default : Options) with dryRun := true }
 def cexWrite : DState :=
   { fs := {}, firstPatch := false, dWrites := [{ dest := [97], content := [], newMode := 0, perm := {} }] }
 /-- a pending deferred removal of the existing file "a" -/
-def cexRemoval : DState := { fs := { nodes := [([97], .file [] 0o644)] }, firstPatch := false, dRemovals := [[97]] }
+def cexRemoval : DState := { fs := { nodes := [([97], .file [] 0o644)] }, firstPatch := false, dRemovals := [([97], false)] }
 
 theorem cexWrite_run : (runPatch cexOptions cexWrite).2.trace = [.tmpCreate, .tmpUnlink, .creat [97]] ∧
     (runPatch cexOptions cexWrite).2.fs.nodes = [([97], .file [] 0o644)] := by decide
@@ -158,14 +158,15 @@ theorem tmp_path (p : Bytes) : PathOk Tmp p :=
    fun _ _ _ => tmp_op nofun, fun _ _ _ _ => tmp_op nofun, fun _ _ _ _ => tmp_op nofun⟩
 
 theorem tmp_sec (o : Options) (a b : Bytes) : SecOk Tmp o a b :=
-  ⟨tmp_path _, tmp_path _, tmp_path _, tmp_path _, ⟨fun _ _ => tmp_op nofun⟩, fun _ _ => ⟨fun _ h => h⟩, ⟨fun _ h => h⟩⟩
+  ⟨tmp_path _, tmp_path _, tmp_path _, tmp_path _, ⟨fun _ _ => tmp_op nofun⟩, fun _ _ => ⟨fun _ h => h⟩, fun _ => ⟨fun _ h => h⟩⟩
 
 theorem tmp_processPatchM (o : Options) : Inv Tmp (processPatchM o) := by
   refine tr_processPatchM tmp_framed (fun _ h => h) (fun s h => h) tmp_createTemp ?_ ?_
   · intro format
     exact inv_processSection (I' := fun _ _ => Tmp) format tmp_framed (fun _ _ => tmp_framed) (fun _ _ => tmp_createTemp)
       (fun _ _ _ h => h) (fun _ _ _ h => h) (fun _ a b => tmp_sec o a b)
-  · exact tr_finalizeDeferred (fun s0 hs0 => ⟨Tmp, tmp_framed, hs0, fun _ _ => ⟨tmp_path _, tmp_path _, ⟨fun _ _ => tmp_op nofun⟩⟩, fun _ _ => tmp_path _, fun _ h => h⟩)
+  · exact tr_finalizeDeferred (fun s0 hs0 => ⟨Tmp, tmp_framed, hs0, fun _ _ => ⟨tmp_path _, tmp_path _, ⟨fun _ _ => tmp_op nofun⟩⟩,
+      fun _ _ => ⟨tmp_path _, fun _ => ⟨tmp_path _, ⟨fun _ _ => tmp_op nofun⟩⟩⟩, fun _ h => h⟩)
 
 /-- temporaries never outlive the operation that follows their creation: every `tmpCreate` in the trace of any run (dry or not)
     is immediately followed by `tmpUnlink` -/
